@@ -46,17 +46,6 @@ fn known(c: &mut Case, mut ty: LType) -> LType {
     ty
 }
 
-/// known finding (arrow-select, C03): `take` of a FixedSizeList(0) / FixedSizeBinary(0) column without nulls returns an empty array, so the
-/// value-returning sorts (sort, sort_limit, lexsort = take of the indices) lose their rows; the index-returning
-/// functions are unaffected and stay checked.
-fn take_fsl0(c: &mut Case, ty: &LType) -> bool {
-    let hit = !c.strict && ty.any(&|t| matches!(t, LType::FixedList(_, 0) | LType::FixedBinary(0)));
-    if hit {
-        c.exclude("take:zero-width-fixed-size");
-    }
-    hit
-}
-
 fn eq_model(ty: &LType, a: &LValue, b: &LValue) -> bool {
     model_cmp(ty, a, b, SortOptions::default(), UM) == Ordering::Equal
 }
@@ -95,18 +84,25 @@ fn sub_comparator(c: &mut Case) -> CaseResult {
     let n = c.tape.len(10, 24);
     let m = c.tape.len(4, 10);
     let vc = vcfg();
-    let all = gen_ord_column(&mut c.tape, &ty, true, n + m, &vc);
+    let mut all = gen_ord_column(&mut c.tape, &ty, true, n + m, &vc);
+    let inline = inline_views(&mut c.tape, &ty, &mut all);
     let (ca, cb) = all.split_at(n);
-    let la = lay_of(&mut c.tape);
+    let la = if inline { Lay::plain() } else { lay_of(&mut c.tape) };
     let a = no_panic("realise", || realise(&mut c.tape, &ty, ca, true, &la))?;
-    let lb = lay_of(&mut c.tape);
+    let lb = if inline && c.tape.chance(200) { Lay::plain() } else { lay_of(&mut c.tape) };
     let b = no_panic("realise", || realise(&mut c.tape, &ty, cb, true, &lb))?;
     c.describe(json!({"type": format!("{}", ty.arrow()), "a": short_vec(ca), "b": short_vec(cb)}));
     classes(c, &ty, a.as_ref());
     if nontrivial_col(&ty, ca) {
         c.nontrivial();
     }
-    let structural_eq = !has_union(&ty);
+    check_comparator(c, &ty, ca, cb, &a, &b)
+}
+
+/// the comparator oracle on two arrays of one type (laws within `a`, model agreement within `a` and across `a`,`b`)
+fn check_comparator(c: &mut Case, ty: &LType, ca: &[LValue], cb: &[LValue], a: &ArrayRef, b: &ArrayRef) -> CaseResult {
+    let (n, m) = (ca.len(), cb.len());
+    let structural_eq = !has_union(ty);
     for o in ALL_OPTS {
         let on = opts_name(o);
         let f = no_panic("make_comparator", || make_comparator(a.as_ref(), a.as_ref(), o))?;
@@ -119,7 +115,7 @@ fn sub_comparator(c: &mut Case) -> CaseResult {
             ensure!(aa[i][i] == Ordering::Equal, "comparator:reflexive", "{} cmp({i},{i}) = {:?} for {:?}", on, aa[i][i], ca[i]);
             for j in 0..n {
                 ensure!(aa[i][j] == aa[j][i].reverse(), "comparator:antisymmetric", "{} cmp({i},{j})={:?} but cmp({j},{i})={:?}: {:?} / {:?}", on, aa[i][j], aa[j][i], ca[i], ca[j]);
-                let want = model_cmp(&ty, &ca[i], &ca[j], o, UM);
+                let want = model_cmp(ty, &ca[i], &ca[j], o, UM);
                 ensure!(aa[i][j] == want, "comparator:model-split", "{} {} cmp({i},{j})={:?} model {:?}: {:?} / {:?}", ty.arrow(), on, aa[i][j], want, ca[i], ca[j]);
                 if structural_eq {
                     ensure!((aa[i][j] == Ordering::Equal) == (ca[i] == ca[j]), "comparator:equal-iff-same-value", "{} cmp({i},{j})={:?}: {:?} / {:?}", on, aa[i][j], ca[i], ca[j]);
@@ -156,7 +152,7 @@ fn sub_comparator(c: &mut Case) -> CaseResult {
         let ba = matrix("comparator", &h, m, n)?;
         for i in 0..n {
             for j in 0..m {
-                let want = model_cmp(&ty, &ca[i], &cb[j], o, UM);
+                let want = model_cmp(ty, &ca[i], &cb[j], o, UM);
                 ensure!(ab[i][j] == want, "comparator:model-split", "{} {} cross cmp(a{i},b{j})={:?} model {:?}: {:?} / {:?}", ty.arrow(), on, ab[i][j], want, ca[i], cb[j]);
                 ensure!(ba[j][i] == want.reverse(), "comparator:cross-antisymmetric", "{} cmp(b{j},a{i})={:?} but cmp(a{i},b{j})={:?}", on, ba[j][i], ab[i][j]);
             }
@@ -229,8 +225,8 @@ fn sub_sort(c: &mut Case) -> CaseResult {
         _ => c.tape.below(30),
     };
     let vc = vcfg();
-    let col = gen_ord_column(&mut c.tape, &ty, true, n, &vc);
-    let lay = lay_of(&mut c.tape);
+    let mut col = gen_ord_column(&mut c.tape, &ty, true, n, &vc);
+    let lay = if inline_views(&mut c.tape, &ty, &mut col) { Lay::plain() } else { lay_of(&mut c.tape) };
     let a = no_panic("realise", || realise(&mut c.tape, &ty, &col, true, &lay))?;
     let (oarg, o) = opt_arg(&mut c.tape);
     let limit = gen_limit(&mut c.tape, n);
@@ -263,10 +259,6 @@ fn sub_sort(c: &mut Case) -> CaseResult {
         ensure!(eq_model(&ty, &col[*i as usize], &sorted[k]), "sort_to_indices:kth-value", "position {} holds {:?}, the model order has {:?} there", k, col[*i as usize], sorted[k]);
     }
     // sort / sort_limit return the values in that order, same type
-    if take_fsl0(c, &ty) {
-        c.evals(1);
-        return Ok(());
-    }
     let want_len = limit.map(|l| l.min(n)).unwrap_or(n);
     let s = match no_panic("sort_limit", || sort_limit(a.as_ref(), oarg, limit))? {
         Ok(x) => x,
@@ -327,11 +319,13 @@ fn gen_tuple(c: &mut Case, k: usize, n: usize, presort: bool) -> Result<Tuple, F
     let mut cols: Vec<Vec<LValue>> = vec![];
     let mut oargs = vec![];
     let mut opts = vec![];
+    let mut inline = vec![];
     for _ in 0..k {
         // leading columns with few distinct values so that later columns decide
         let ty = if c.tape.chance(140) { gen_type(&mut c.tape, &TypeCfg::flat()) } else { gen_type(&mut c.tape, &cfg) };
         let ty = known(c, ty);
-        let col = gen_ord_column(&mut c.tape, &ty, true, n, &vc);
+        let mut col = gen_ord_column(&mut c.tape, &ty, true, n, &vc);
+        inline.push(inline_views(&mut c.tape, &ty, &mut col));
         let (oa, o) = opt_arg(&mut c.tape);
         tys.push(ty);
         cols.push(col);
@@ -358,7 +352,7 @@ fn gen_tuple(c: &mut Case, k: usize, n: usize, presort: bool) -> Result<Tuple, F
     }
     let mut arrays = vec![];
     for x in 0..k {
-        let lay = lay_of(&mut c.tape);
+        let lay = if inline[x] { Lay::plain() } else { lay_of(&mut c.tape) };
         let a = no_panic("realise", || realise(&mut c.tape, &tys[x], &cols[x], true, &lay))?;
         classes(c, &tys[x], a.as_ref());
         arrays.push(a);
@@ -439,10 +433,6 @@ fn sub_lexsort(c: &mut Case) -> CaseResult {
     let mut order: Vec<usize> = (0..n).collect();
     order.sort_by(|&i, &j| t.model(i, j));
     let want_len = limit.map(|l| l.min(n)).unwrap_or(n);
-    if (0..k).any(|x| take_fsl0(c, &t.tys[x])) {
-        c.evals((2 * pairs * pairs + 1) as u64);
-        return Ok(());
-    }
     let out = match no_panic("lexsort", || lexsort(&sc, limit))? {
         Ok(x) => x,
         Err(e) => fail!("lexsort:err", "{}", e),
@@ -471,8 +461,8 @@ fn sub_rank(c: &mut Case) -> CaseResult {
         _ => c.tape.below(40),
     };
     let vc = vcfg();
-    let col = gen_ord_column(&mut c.tape, &ty, true, n, &vc);
-    let lay = lay_of(&mut c.tape);
+    let mut col = gen_ord_column(&mut c.tape, &ty, true, n, &vc);
+    let lay = if inline_views(&mut c.tape, &ty, &mut col) { Lay::plain() } else { lay_of(&mut c.tape) };
     let a = no_panic("realise", || realise(&mut c.tape, &ty, &col, true, &lay))?;
     let (oarg, o) = opt_arg(&mut c.tape);
     c.describe(json!({"type": format!("{}", ty.arrow()), "opts": opts_name(o), "values": short_vec(&col)}));
@@ -675,12 +665,13 @@ fn sub_compare(c: &mut Case) -> CaseResult {
             }
         }
     }
+    let inline = inline_views(&mut c.tape, &leaf, &mut all);
     let (cl, cr) = all.split_at(ln);
     c.describe(json!({"left": format!("{}", lt.arrow()), "right": format!("{}", rt.arrow()), "shape": shape, "l": short_vec(cl), "r": short_vec(cr)}));
     // RunArray::try_new validates its values child with ArrayData::validate, which rejects a BooleanArray whose value
     // bits start at a bit offset unless the validity buffer is long enough for offset+len (side finding, not C10):
     // run-end over plain Boolean is realised without layout variation
-    let side_lay = |t: &mut Tape, w: Wrap| if matches!(w, Wrap::Ree | Wrap::ReeDict) && matches!(leaf, LType::Bool) { Lay::plain() } else { lay_of(t) };
+    let side_lay = |t: &mut Tape, w: Wrap| if inline || (matches!(w, Wrap::Ree | Wrap::ReeDict) && matches!(leaf, LType::Bool)) { Lay::plain() } else { lay_of(t) };
     let mut llay = side_lay(&mut c.tape, lw);
     let mut rlay = side_lay(&mut c.tape, rw);
     if !c.strict {
@@ -720,6 +711,12 @@ fn sub_compare(c: &mut Case) -> CaseResult {
         6 => rn,
         _ => 1,
     };
+    check_kernels(c, &leaf, &lt, &rt, cl, cr, ld, rd, out_len)
+}
+
+/// the kernel oracle: every kernel, every row
+#[allow(clippy::too_many_arguments)]
+fn check_kernels(c: &mut Case, leaf: &LType, lt: &LType, rt: &LType, cl: &[LValue], cr: &[LValue], ld: &dyn Datum, rd: &dyn Datum, out_len: usize) -> CaseResult {
     let at = |col: &[LValue], i: usize| -> LValue { if col.len() == 1 { col[0].clone() } else { col[i].clone() } };
     let mut saw_null = false;
     let mut saw_eq = false;
@@ -732,7 +729,7 @@ fn sub_compare(c: &mut Case) -> CaseResult {
         ensure!(out.len() == out_len, format!("{name}:len"), "result has {} rows, expected {}", out.len(), out_len);
         for i in 0..out_len {
             let (a, b) = (at(cl, i), at(cr, i));
-            let want = kernel_expect(name, &leaf, &a, &b);
+            let want = kernel_expect(name, leaf, &a, &b);
             let got = if out.is_null(i) { None } else { Some(out.value(i)) };
             ensure!(got == want, format!("{name}:row"), "{}({:?}, {:?}) row {} = {:?}, expected {:?} [{} vs {}]", name, a, b, i, got, want, lt.arrow(), rt.arrow());
             saw_null |= a.is_null() || b.is_null();
@@ -919,6 +916,9 @@ fn grid_types() -> Vec<(LType, bool, bool, bool)> {
     g.push((ree(Binary(Enc::View)), true, false, true));
     g.push((ree(FixedBinary(2)), true, false, true));
     g.push((ree(dict(Utf8(Enc::O32))), true, false, true));
+    g.push((ree(Struct(vec![LField::new("a", i32t.clone(), true)])), false, false, false));
+    g.push((ree(List(f(i32t.clone()), ListEnc::O32)), true, false, false));
+    g.push((dict(Struct(vec![LField::new("a", i32t.clone(), true)])), false, false, false));
     g
 }
 
@@ -926,6 +926,18 @@ fn sub_grid(c: &mut Case) -> CaseResult {
     let _ = c.tape.u64();
     let g = grid_types();
     let (ty, can_sort, can_rank, can_cmp) = g[(c.index as usize) % g.len()].clone();
+    grid_check(c, ty, can_sort, can_rank, can_cmp)
+}
+
+/// known finding: sort_to_indices / sort / sort_limit on a run-end array whose value type is not sortable panic
+/// (sort.rs sort_run_inner: `sort_to_indices(&run_values, options, None).unwrap()`) instead of returning the documented error
+fn repro_sort_run_end_unsortable(c: &mut Case) -> CaseResult {
+    let st = LType::Struct(vec![LField::new("a", LType::Int { bits: 32, signed: true }, true)]);
+    let ty = LType::Ree { rbits: 32, value: Box::new(LField::new("values", st, true)) };
+    grid_check(c, ty, false, false, false)
+}
+
+fn grid_check(c: &mut Case, ty: LType, can_sort: bool, can_rank: bool, can_cmp: bool) -> CaseResult {
     ensure!(sortable(&ty) == can_sort && rankable(&ty) == can_rank && cmp_kernel_ok(&ty) == can_cmp, "grid:predicate", "grid predicates disagree with the committed table for {}", ty.arrow());
     let vc = vcfg();
     let n = 2 + c.tape.below(5);
@@ -935,12 +947,17 @@ fn sub_grid(c: &mut Case) -> CaseResult {
     c.class(format!("family:{}", ty.family()));
     let o = Some(sort_opts_of(&mut c.tape));
     let name = format!("{}", ty.arrow());
-    let r = no_panic("sort_to_indices", || sort_to_indices(a.as_ref(), o, None).is_ok())?;
-    ensure!(r == can_sort, if can_sort { "sort_to_indices:err" } else { "sort_to_indices:unsupported-ok" }, "sort_to_indices({}) ok={} but the documented grid says {}", name, r, can_sort);
-    let r = no_panic("sort", || sort(a.as_ref(), o).is_ok())?;
-    ensure!(r == can_sort, if can_sort { "sort:err" } else { "sort:unsupported-ok" }, "sort({}) ok={} grid {}", name, r, can_sort);
-    let r = no_panic("sort_limit", || sort_limit(a.as_ref(), o, Some(1)).is_ok())?;
-    ensure!(r == can_sort, if can_sort { "sort_limit:err" } else { "sort_limit:unsupported-ok" }, "sort_limit({}) ok={} grid {}", name, r, can_sort);
+    let ree_unsortable = matches!(&ty, LType::Ree { value, .. } if !sortable(&value.ty));
+    if ree_unsortable && !c.strict {
+        c.exclude("sort:run-end-of-unsortable-values");
+    } else {
+        let r = no_panic("sort_to_indices", || sort_to_indices(a.as_ref(), o, None).is_ok())?;
+        ensure!(r == can_sort, if can_sort { "sort_to_indices:err" } else { "sort_to_indices:unsupported-ok" }, "sort_to_indices({}) ok={} but the documented grid says {}", name, r, can_sort);
+        let r = no_panic("sort", || sort(a.as_ref(), o).is_ok())?;
+        ensure!(r == can_sort, if can_sort { "sort:err" } else { "sort:unsupported-ok" }, "sort({}) ok={} grid {}", name, r, can_sort);
+        let r = no_panic("sort_limit", || sort_limit(a.as_ref(), o, Some(1)).is_ok())?;
+        ensure!(r == can_sort, if can_sort { "sort_limit:err" } else { "sort_limit:unsupported-ok" }, "sort_limit({}) ok={} grid {}", name, r, can_sort);
+    }
     let r = no_panic("rank", || rank(a.as_ref(), o).is_ok())?;
     ensure!(r == can_rank, if can_rank { "rank:err" } else { "rank:unsupported-ok" }, "rank({}) ok={} grid {}", name, r, can_rank);
     for (kn, k) in KERNELS {
@@ -957,6 +974,77 @@ fn sub_grid(c: &mut Case) -> CaseResult {
     Ok(())
 }
 
+// ------------------------------------------------------------------------------------------------
+// Reproductions of the findings the generators avoid (fixed inputs; registered with zero generated cases so that a
+// known-findings entry {sub, tape: ""} re-executes them; replay mode disables the exclusions)
+
+/// UnionArray::logical_nulls of a dense union with one field whose type id is not 0 reports no nulls; seen through the
+/// comparator when that union is a child of another union (the outer slot is not recognised as null)
+fn repro_union_logical_nulls(c: &mut Case) -> CaseResult {
+    let i32t = LType::Int { bits: 32, signed: true };
+    let inner = LType::Union { dense: true, fields: vec![(1, LField::new("a", i32t.clone(), true))] };
+    let ty = LType::Union { dense: false, fields: vec![(0, LField::new("a", i32t, true)), (1, LField::new("b", inner, true))] };
+    let col = vec![LValue::Union(0, Box::new(LValue::Int(5))), LValue::Union(1, Box::new(LValue::Union(1, Box::new(LValue::Null)))), LValue::Union(0, Box::new(LValue::Null))];
+    let a = no_panic("realise", || realise(&mut c.tape, &ty, &col, true, &Lay::plain()))?;
+    c.describe(json!({"type": format!("{}", ty.arrow()), "values": short_vec(&col)}));
+    c.nontrivial();
+    check_comparator(c, &ty, &col, &col, &a, &a)
+}
+
+/// scalar ∘ scalar with a dictionary right operand whose key is not 0
+fn repro_cmp_scalar_scalar(c: &mut Case) -> CaseResult {
+    let leaf = LType::Int { bits: 32, signed: true };
+    let rt = LType::Dict { kbits: 8, ksigned: true, value: Box::new(leaf.clone()) };
+    let l: ArrayRef = std::sync::Arc::new(arrow_array::Int32Array::from(vec![5]));
+    let values: ArrayRef = std::sync::Arc::new(arrow_array::Int32Array::from(vec![1, 5]));
+    let r: ArrayRef = std::sync::Arc::new(arrow_array::DictionaryArray::new(arrow_array::Int8Array::from(vec![1]), values));
+    let (cl, cr) = (vec![LValue::Int(5)], vec![LValue::Int(5)]);
+    c.describe(json!({"left": "scalar Int32 5", "right": "scalar Dictionary(Int8, Int32) key 1 -> 5"}));
+    c.nontrivial();
+    let (ls, rs) = (Scalar::new(l), Scalar::new(r));
+    check_kernels(c, &leaf, &leaf, &rt, &cl, &cr, &ls, &rs, 1)
+}
+
+/// an empty slice of a run-end array taken behind its first run, compared with an empty dictionary array
+fn repro_cmp_empty_run_end_slice(c: &mut Case) -> CaseResult {
+    use arrow_array::types::Int32Type;
+    let leaf = LType::Int { bits: 32, signed: true };
+    let re = arrow_array::Int32Array::from(vec![1, 4]);
+    let v = arrow_array::Int32Array::from(vec![7, 8]);
+    let ra = match arrow_array::RunArray::<Int32Type>::try_new(&re, &v) {
+        Ok(r) => r,
+        Err(e) => fail!("setup", "{}", e),
+    };
+    let l: ArrayRef = std::sync::Arc::new(ra.slice(3, 0));
+    let values: ArrayRef = std::sync::Arc::new(arrow_array::Int32Array::from(vec![1]));
+    let r: ArrayRef = std::sync::Arc::new(arrow_array::DictionaryArray::new(arrow_array::Int8Array::from(Vec::<i8>::new()), values));
+    c.describe(json!({"left": "RunArray(run_ends [1,4]).slice(3, 0)", "right": "Dictionary(Int8, Int32) with no keys"}));
+    c.nontrivial();
+    check_kernels(c, &leaf, &leaf, &leaf, &[], &[], &l, &r, 0)
+}
+
+/// known finding: make_comparator on two dictionary arrays with different key types hits `unreachable!()` instead of the
+/// "different types" error (run-end arrays with different run-end types get an error)
+fn repro_comparator_dictionary_keys(c: &mut Case) -> CaseResult {
+    let v = LType::Utf8(Enc::O32);
+    let t1 = LType::Dict { kbits: 8, ksigned: true, value: Box::new(v.clone()) };
+    let t2 = LType::Dict { kbits: 16, ksigned: true, value: Box::new(v) };
+    let col = vec![LValue::Str("a".into()), LValue::Str("b".into())];
+    let a = no_panic("realise", || realise(&mut c.tape, &t1, &col, true, &Lay::plain()))?;
+    let b = no_panic("realise", || realise(&mut c.tape, &t2, &col, true, &Lay::plain()))?;
+    c.describe(json!({"left": format!("{}", t1.arrow()), "right": format!("{}", t2.arrow())}));
+    c.nontrivial();
+    let r = no_panic("make_comparator", || make_comparator(a.as_ref(), b.as_ref(), SortOptions::default()).is_err())?;
+    ensure!(r, "make_comparator:mismatch-ok", "make_comparator accepted different dictionary key types");
+    Ok(())
+}
+
+/// a reproduction fails with its own signature (`repro:<key>`), so that listing it as a known finding can never hide a
+/// generated failure that merely shares the underlying signature
+fn tag(r: CaseResult, key: &str) -> CaseResult {
+    r.map_err(|f| Fail::new(format!("repro:{key}"), format!("[{}] {}", f.sig, f.msg)))
+}
+
 fn main() {
     let ngrid = grid_types().len() as u64;
     Check::new(
@@ -969,12 +1057,17 @@ fn main() {
     .assume("sort is unstable: results are compared as value sequences / by the comparator, never by index identity; partition input is sorted first (documented precondition)")
     .assume("support grid (sort/rank/comparison kernels) is committed in grid_types(): inside it Err is a violation, outside it Ok or a panic is")
     .sub(Sub::new("grid", 0, 0, sub_grid).enumerate(ngrid * 20, ngrid * 200))
-    .sub(Sub::new("comparator", 30000, 600000, sub_comparator).tape(256, 8000).require(&["family:list", "family:struct", "family:dictionary", "family:runend", "family:float", "family:view", "family:union", "family:map", "family:fixedlist", "family:listview"]))
-    .sub(Sub::new("sort", 60000, 1200000, sub_sort).tape(256, 8000).require(&["family:list", "family:dictionary", "family:runend", "family:float", "family:view", "family:fixedbinary", "family:fixedlist", "family:listview", "view:no-buffers", "view:buffers", "limit:<len", "limit:>len", "limit:none"]))
-    .sub(Sub::new("lexsort", 25000, 500000, sub_lexsort).tape(256, 10000).require(&["columns:1", "columns:4", "path:topk-heap", "mixed-options"]))
-    .sub(Sub::new("rank", 30000, 600000, sub_rank).tape(128, 6000).require(&["family:float", "family:bytes", "family:view", "family:bool", "family:interval"]))
-    .sub(Sub::new("partition", 25000, 500000, sub_partition).tape(256, 10000).require(&["columns:1", "columns:3"]))
-    .sub(Sub::new("compare", 60000, 1200000, sub_compare).tape(256, 8000).require(&["array-array", "array-scalar", "scalar-array", "scalar-scalar", "sides:Dict/Plain", "sides:Plain/Dict", "sides:Ree/Ree", "leaf:view", "leaf:float", "leaf:fixedbinary", "view:no-buffers"]))
-    .sub(Sub::new("unsupported", 8000, 100000, sub_unsupported).tape(128, 4000).require(&["type-mismatch", "argument-errors"]))
+    .sub(Sub::new("comparator", 60000, 600000, sub_comparator).tape(256, 8000).require(&["family:list", "family:struct", "family:dictionary", "family:runend", "family:float", "family:view", "family:union", "family:map", "family:fixedlist", "family:listview"]))
+    .sub(Sub::new("sort", 120000, 1200000, sub_sort).tape(256, 8000).require(&["family:list", "family:dictionary", "family:runend", "family:float", "family:view", "family:fixedbinary", "family:fixedlist", "family:listview", "view:no-buffers", "view:buffers", "limit:<len", "limit:>len", "limit:none"]))
+    .sub(Sub::new("lexsort", 50000, 500000, sub_lexsort).tape(256, 10000).require(&["columns:1", "columns:4", "path:topk-heap", "mixed-options"]))
+    .sub(Sub::new("rank", 60000, 600000, sub_rank).tape(128, 6000).require(&["family:float", "family:bytes", "family:view", "family:bool", "family:interval"]))
+    .sub(Sub::new("partition", 50000, 500000, sub_partition).tape(256, 10000).require(&["columns:1", "columns:3"]))
+    .sub(Sub::new("compare", 120000, 1200000, sub_compare).tape(256, 8000).require(&["array-array", "array-scalar", "scalar-array", "scalar-scalar", "sides:Dict/Plain", "sides:Plain/Dict", "sides:Ree/Ree", "leaf:view", "leaf:float", "leaf:fixedbinary", "view:no-buffers"]))
+    .sub(Sub::new("repro_sort_run_end_unsortable", 0, 0, |c| tag(repro_sort_run_end_unsortable(c), "sort-run-end-unsortable")))
+    .sub(Sub::new("repro_comparator_dictionary_keys", 0, 0, |c| tag(repro_comparator_dictionary_keys(c), "comparator-dictionary-keys")))
+    .sub(Sub::new("repro_union_logical_nulls", 0, 0, |c| tag(repro_union_logical_nulls(c), "union-logical-nulls")))
+    .sub(Sub::new("repro_cmp_scalar_scalar", 0, 0, |c| tag(repro_cmp_scalar_scalar(c), "cmp-scalar-scalar")))
+    .sub(Sub::new("repro_cmp_empty_run_end_slice", 0, 0, |c| tag(repro_cmp_empty_run_end_slice(c), "cmp-empty-run-end-slice")))
+    .sub(Sub::new("unsupported", 12000, 120000, sub_unsupported).tape(128, 4000).require(&["type-mismatch", "argument-errors"]))
     .run()
 }
